@@ -124,3 +124,9 @@ package transport
 //@ func AcceptRawSocket
 //@   props C04
 //@   requires !isnil(conn) && !isnil(logger)
+
+// Websocket peer: the router-to-client queue has exactly the configured size.
+//@ func NewWebsocketPeer
+//@   props C07
+//@   requires !isnil(conn) && !isnil(serializer) && !isnil(logger)
+//@   ensures [send-queue-bounded] is(result, *websocketPeer) && result.(*websocketPeer) != nil && chancap(result.(*websocketPeer).wr) == outQueueSize
